@@ -173,6 +173,17 @@ func applyMuts(data []byte, muts []mut) []byte {
 		case "crlf":
 			data = []byte(strings.Join(lines, "\r\n"))
 			continue
+		case "bed12-blocks":
+			// the three block columns of a BED12 line (count, sizes, starts) replaced together: counts that
+			// disagree with the lists, lists that start or end with a comma, empty lists
+			if len(cols) >= 12 {
+				a := mod(m.Arg, len(blockCounts)*len(blockLists)*len(blockLists))
+				cols[9] = blockCounts[a%len(blockCounts)]
+				a /= len(blockCounts)
+				cols[10] = blockLists[a%len(blockLists)]
+				cols[11] = blockLists[a/len(blockLists)]
+				lines[li] = strings.Join(cols, "\t")
+			}
 		case "space-for-tab":
 			lines[li] = strings.Replace(lines[li], "\t", " ", 1)
 		case "double-space":
@@ -195,6 +206,9 @@ func mod(a, n int) int {
 	return a
 }
 
+var blockCounts = []string{"0", "1", "2", "-1", "3"}
+var blockLists = []string{",", ",100", ",0", "", "5", "5,", "0,", "0", "0,5", "5,5", ",,", "5,,5", "1,2,3"}
+
 var mutOps = []string{"del-col", "dup-col", "empty-col", "hostile-col", "byte-col", "byte-col", "keep-cols", "dup-line", "del-line", "hostile-line", "set-byte", "truncate", "crlf", "space-for-tab", "double-space"}
 
 func genMutCase(t *rapid.T) mutCase {
@@ -213,8 +227,14 @@ func genMutCase(t *rapid.T) mutCase {
 	}
 	n := rapid.IntRange(0, 3).Draw(t, "nmuts")
 	for i := 0; i < n; i++ {
-		c.Muts = append(c.Muts, mut{Op: rapid.SampledFrom(mutOps).Draw(t, "op"), Line: rapid.IntRange(0, 30).Draw(t, "line"),
-			Col: rapid.IntRange(0, 400).Draw(t, "col"), Arg: rapid.IntRange(0, 255).Draw(t, "arg")})
+		m := mut{Op: rapid.SampledFrom(mutOps).Draw(t, "op"), Line: rapid.IntRange(0, 30).Draw(t, "line"),
+			Col: rapid.IntRange(0, 400).Draw(t, "col"), Arg: rapid.IntRange(0, 255).Draw(t, "arg")}
+		if c.Bed != nil && c.Bed.N == 12 && rapid.IntRange(0, 2).Draw(t, "blocks") == 1 {
+			// a BED12 file: the block columns are replaced together (which combination: Arg and Col)
+			m.Op = "bed12-blocks"
+			m.Arg += 256 * m.Col
+		}
+		c.Muts = append(c.Muts, m)
 	}
 	return c
 }
